@@ -113,8 +113,8 @@ def case_container(rep):
                                      "mesh.read(merge=True): the meshes do not refer to one shared point array")
                     for m in mc.meshes:
                         ref = cont.meshes[0] if m.cell_type == "quad" else cont.meshes[1]
-                        same = np.array_equal(np.sort(np.round(m.points[m.cells].reshape(len(m.cells), -1), 12), axis=0),
-                                              np.sort(np.round(ref.points[ref.cells].reshape(len(ref.cells), -1), 12), axis=0))
+                        rows = lambda mm: (lambda a: a[np.lexsort(a.T[::-1])])(np.round(mm.points[mm.cells].reshape(len(mm.cells), -1), 12))
+                        same = m.cells.shape == ref.cells.shape and np.array_equal(rows(m), rows(ref))  # whole cells (corner order kept) as a set
                         if same:
                             run.ok("files.container", unit="read:cell-geometry", config=("read", ext, merge))
                         else:
@@ -209,6 +209,10 @@ def case_job(rep):
                     if rep % 4 == 1:
                         opts = {"x0": field, "parallel": True}  # the documented start field and threaded assembly
                         run.units["job:option:x0+parallel"] += 1
+                    nodefaults = rep % 5 == 3
+                    if nodefaults:
+                        opts.update(point_data_default=False, cell_data_default=False)  # only what the caller hands over is written
+                        run.units["job:option:no-defaults"] += 1
                     job.evaluate(filename="result.xdmf", point_data=pdata, cell_data=cdata, verbose=False, tol=1e-9, maxiter=10, **opts)
                 except ValueError as e:
                     raised = e
@@ -237,8 +241,12 @@ def case_job(rep):
                         run.skip("files.job", "injected infeasible substep converged")
                     else:
                         run.fail("files.job", "clause=early-stop-frames", "%s: %d frames although the job failed at substep %d" % (label, nframes, fail_at))
-                if not np.array_equal(pts[:, : mesh.dim], mesh.points):
-                    run.fail("files.job", "clause=mesh-points", "%s: points in the file differ from the mesh" % label)
+                if not np.array_equal(pts[:, : mesh.dim], mesh.points) or (pts.shape[1] > mesh.dim and maxabs(pts[:, mesh.dim:]) != 0):
+                    run.fail("files.job", "clause=mesh-points", "%s: points in the file differ from the mesh (or the padded coordinate is not zero)" % label)
+                if len(cells) == 1 and cells[0].type == mesh.cell_type and np.array_equal(np.asarray(cells[0].data), mesh.cells):
+                    run.ok("files.job", unit="job:mesh-cells", config=("job-cells", fam))
+                else:
+                    run.fail("files.job", "clause=mesh-cells", "%s: cell block of the file (type / connectivity) differs from the mesh of the job" % label)
                 times = [f[0] for f in frames]
                 if times == list(range(nframes)):
                     run.ok("files.job", unit="job:frame-order")
@@ -248,6 +256,14 @@ def case_job(rep):
                 for k, (t, pd, cd) in enumerate(frames):
                     u = rec[k]["values"][0]
                     u3 = np.pad(u, ((0, 0), (0, 3 - u.shape[1])))
+                    if nodefaults:
+                        if set(pd) == set(pdata or {}) and set(cd) == set(cdata or {}):
+                            run.ok("files.job", unit="job:no-default-data")
+                        else:
+                            run.fail("files.job", "clause=no-default-data", "%s: with the default data switched off frame %d holds %s / %s" % (label, k, sorted(pd), sorted(cd)))
+                        if custom:
+                            run.compare("files.job", "clause=custom-point-data", maxabs(pd["Twice"] - 2 * u3), 0.0, "%s: custom point data differ" % label, unit="job:custom-data")
+                        continue
                     run.compare("files.job", "clause=frame-displacement", maxabs(pd["Displacement"] - u3), 0.0,
                                 "%s: 'Displacement' of frame %d differs from the field of converged substep %d" % (label, k, k),
                                 unit="job:displacement", config=("displacement", kind))
@@ -286,9 +302,10 @@ def case_save(rep):
         import felupe as fem
         import meshio
         rng = rng_for(run.seed, "C20", "save", rep)
-        kind, fam = [("3d", "hexahedron"), ("3d", "tetra"), ("3d", "hexahedron20")][rep % 3]
+        kind, fam = [("3d", "hexahedron"), ("3d", "tetra"), ("3d", "hexahedron20"), ("mixed", "hexahedron"), ("planestrain", "quad"), ("axisymmetric", "quad")][rep % 6]
         field, bounds, lc, items, mesh = C07.build(rng, kind, fam, "NeoHooke", ())
         res = fem.newtonrhapson(items=items, verbose=False, **lc)
+        run.units["save:kind:" + kind] += 1
         with scratch() as d:
             for ext in ("vtu", "xdmf"):  # the legacy vtk writer refuses field names with spaces ('Reaction Force'): loud
                 fn_ = os.path.join(d, "result." + ext)
@@ -301,7 +318,7 @@ def case_save(rep):
                             "save(): displacements in the file differ from the given field", unit="save:displacements", config=("save", ext, fam))
                 run.compare("files.save", "format=%s clause=reaction-forces" % ext, maxabs(back.point_data["Reaction Force"] - forces[: u.size].reshape(u.shape)), 0.0,
                             "save(): reaction forces in the file differ from the given forces", unit="save:forces", config=("save-forces", ext, fam))
-                if not np.array_equal(back.points, mesh.points) or not np.array_equal(back.cells[0].data, mesh.cells):
+                if not np.array_equal(back.points[:, : mesh.dim], mesh.points) or not np.array_equal(back.cells[0].data, mesh.cells) or back.cells[0].type != mesh.cell_type:
                     run.fail("files.save", "format=%s clause=mesh" % ext, "save(): mesh in the file differs")
                 # the documented call with the stress handed over as well: the file stays readable, displacements and forces are
                 # unchanged and the stress point data are P F^T / det F shifted to the points
@@ -321,6 +338,13 @@ def case_save(rep):
                 P = np.asarray(grad_[0], float)
                 sig = np.einsum("ik...,jk...->ij...", P, Fq) / np.linalg.det(np.moveaxis(Fq, (0, 1), (-2, -1)))
                 refs = fem.topoints(sig, field.region).reshape(mesh.npoints, 9)
+                # principal values of the Cauchy stress at the quadrature points, shifted to the points, under the names that say which
+                sp = np.moveaxis(np.linalg.eigvalsh(np.moveaxis(0.5 * (sig + np.swapaxes(sig, 0, 1)), (0, 1), (-2, -1))), -1, 0)  # ascending
+                spp = fem.topoints(sp, field.region)
+                for col, nm in ((2, "Max."), (1, "Int."), (0, "Min.")):
+                    gotp = np.asarray(back2.point_data["Cauchy Stress (%s Principal)" % nm]).ravel()
+                    run.compare("files.save", "format=%s clause=principal-stress which=%s" % (ext, nm), maxabs(gotp - spp[:, col]) / max(maxabs(spp), 1e-300), 1e-10,
+                                "save(gradient=...): point data 'Cauchy Stress (%s Principal)' is not that principal value" % nm, unit="save:principal")
                 gots = np.asarray(back2.point_data["Cauchy Stress"]).reshape(mesh.npoints, -1)
                 run.compare("files.save", "format=%s clause=cauchy-stress-point-data" % ext, maxabs(gots - refs) / max(maxabs(refs), 1e-300) if gots.shape == refs.shape else np.inf, 1e-13,
                             "save(gradient=...): 'Cauchy Stress' point data are not P F^T / det F shifted to the points (row-major components)",
@@ -339,7 +363,7 @@ def cases(tier, seed):
         out.append(("container3d:%d" % rep, case_container3d(rep)))
     for rep in range(10 if tier == "quick" else 60):
         out.append(("job:%d" % rep, case_job(rep)))
-    for rep in range(3 if tier == "quick" else 9):
+    for rep in range(6 if tier == "quick" else 18):
         out.append(("save:%d" % rep, case_save(rep)))
     return out
 
@@ -351,7 +375,7 @@ def _required():
             req.append("mesh:%s:%s" % (n, ext))
     req += ["mesh:VTK_LAGRANGE_QUADRILATERAL:vtu", "mesh:VTK_LAGRANGE_HEXAHEDRON:vtu", "container:shared-points", "read:merge-shares-points",
             "read:cell-geometry", "job:frame-count", "job:frame-order", "job:displacement", "job:cell-data", "job:custom-data", "job:early-stop",
-            "save:displacements", "save:forces"]
+            "save:displacements", "save:forces", "save:principal", "save:cauchy", "save:kind:mixed", "save:kind:planestrain", "save:kind:axisymmetric", "job:mesh-cells", "job:no-default-data"]
     return req
 
 
